@@ -26,6 +26,24 @@ def gen_node(seed, tier, out):
         subprocess.run([str(brv.BIN / "node"), "gen", str(seed), str(n), tier, "c16"], stdout=f, check=True)
 
 
+def gen_race(seed, tier, out):
+    """monitor-only scripts: two downloads of one block finish at the same moment (`deliver2`), request after request,
+    so that the second success report reaches the manager while it is moving on to the next request."""
+    import random
+    rnd = random.Random(seed * 977 + 5)
+    n = 12 if tier == "quick" else 150
+    with open(out, "w") as f:
+        for _ in range(n):
+            k = rnd.randint(4, 10)
+            conc = rnd.choice([2, 2, 3])
+            f.write(f"init conc={conc}\npolicy accept={4 * k * conc}\n")
+            for h in range(1, k + 1):
+                f.write(f"add h={h}\n")
+            for i in range(k):
+                f.write(f"deliver2 d={conc * i} e={conc * i + 1}\n")
+            f.write("end\n")
+
+
 def static_checks(facts):
     """facts the harnesses / monitors rely on besides the Lean theorems (which use Facts.* directly)."""
     ints = facts.get("ints", {})
@@ -54,6 +72,8 @@ SPEC = Spec(
         Stream("blkdl", "blkdl", "drv_blkdl", gen_dl, monitor=mon.monitor, nontrivial=mon.nontrivial, timeout=900),
         Stream("blkmgr", "blkmgr", "drv_blkmgr", gen_mgr, monitor=mon.monitor_mgr, nontrivial=mon.nontrivial_mgr, timeout=1800),
         Stream("node", "node", "drv_node", gen_node, monitor=mon_node.monitor_c16, nontrivial=mon_node.nontrivial_c16, timeout=1500),
+        Stream("blkrace", "blkmgr", "drv_blkmgr", gen_race, monitor=mon.monitor_mgr, nontrivial=mon.nontrivial_mgr, compare=False,
+               timeout=900, describe="two simultaneous successful downloads of the same block, request after request (monitor only: the order of the two reports is a real race)"),
     ],
     rule="blkdl: EVERY call-granularity interleaving of {Run} x {HandleBlock start, tx, end of stream[, confirmations]} x every multiset of "
          "<= 2 (quick) / <= 3 (thorough) of {Cancel(peer says started), Cancel(not started), Stop, interrupt}, plus variants (no canceller, wrong block, "
